@@ -185,6 +185,25 @@ def _run(case, rec):
                     spec["files"].append([nm, 0, 1_600_000_000 + i])
             rec.cls("folder-with-many-entries")
         materialise(spec, root)
+        if case.get("dirlink") and not case.get("rescan"):
+            # a symbolic link to a directory that lives deeper in the same tree: it is a directory entry of its own
+            # name (sorted by that name), showing the target's content
+            deep = []
+
+            def collect_deep(sp, path, depth):
+                for d in sp["dirs"]:
+                    pth = os.path.join(path, d["name"])
+                    if depth >= 1:
+                        deep.append((d, pth))
+                    collect_deep(d, pth, depth + 1)
+
+            collect_deep(spec, root, 0)
+            k, lname = case["dirlink"]
+            if deep and not os.path.lexists(os.path.join(root, lname)):
+                tspec, tpath = deep[k % len(deep)]
+                os.symlink(tpath, os.path.join(root, lname), target_is_directory=True)
+                spec = dict(spec, dirs=list(spec["dirs"]) + [dict(tspec, name=lname)])
+                rec.cls("symlink-to-a-directory")
         scan_arg = root
         if case.get("relative"):
             # a relative path argument is resolved against the current directory (and taken literally)
@@ -367,6 +386,8 @@ def hyp_cases(draw, tier):
         case["relative"] = draw(st.sampled_from(["plain", "dot"]))
     if draw(st.sampled_from([0] * 9 + [1])):
         case["many"] = draw(st.sampled_from([130, 140, 200, 260]))
+    if draw(st.sampled_from([0, 0, 1])):
+        case["dirlink"] = [draw(st.integers(0, 8)), draw(st.sampled_from(["0link", "A-link", "zz-link", "link"]))]
     if draw(st.sampled_from([0, 1])):
         case["rescan"] = True
         if draw(st.sampled_from([0, 1])):
